@@ -71,9 +71,9 @@ func vh_prepared_pk_indexes() {
 // whatever the tree, they report values or an error, they do not panic.
 func vRowTypeTree(depth int) TypeInfo {
 	nat := func(t Type) NativeType { return NativeType{proto: 4, typ: t} }
-	k := 5
+	k := 7
 	if depth > 0 {
-		k = 9
+		k = 11
 	}
 	switch vChoose("type", k) {
 	case 1:
@@ -85,12 +85,17 @@ func vRowTypeTree(depth int) TypeInfo {
 	case 4:
 		return nat(TypeUUID)
 	case 5:
-		return CollectionType{NativeType: nat(TypeList), Elem: vRowTypeTree(depth - 1)}
+		return nat(TypeTimestamp)
 	case 6:
-		return CollectionType{NativeType: nat(TypeMap), Key: vRowTypeTree(depth - 1), Elem: nat(TypeInt)}
+		// the type descriptor admits a tuple with no element types ([short] n = 0)
+		return TupleTypeInfo{NativeType: nat(TypeTuple)}
 	case 7:
-		return TupleTypeInfo{NativeType: nat(TypeTuple), Elems: []TypeInfo{vRowTypeTree(depth - 1), nat(TypeInt)}}
+		return CollectionType{NativeType: nat(TypeList), Elem: vRowTypeTree(depth - 1)}
 	case 8:
+		return CollectionType{NativeType: nat(TypeMap), Key: vRowTypeTree(depth - 1), Elem: nat(TypeInt)}
+	case 9:
+		return TupleTypeInfo{NativeType: nat(TypeTuple), Elems: []TypeInfo{vRowTypeTree(depth - 1), nat(TypeInt)}}
+	case 10:
 		return UDTTypeInfo{NativeType: nat(TypeUDT), KeySpace: "k", Name: "u", Elements: []UDTField{{Name: "f", Type: vRowTypeTree(depth - 1)}}}
 	}
 	return nat(TypeInt)
@@ -102,10 +107,7 @@ func vh_row_data_types() {
 	if t, ok := ti.(TupleTypeInfo); ok {
 		cells = len(t.Elems)
 	}
-	var body []byte
-	for i := 0; i < cells; i++ {
-		body = append(body, 0xff, 0xff, 0xff, 0xff) // null cell
-	}
+	body := []byte{0xff, 0xff, 0xff, 0xff} // one column, its cell is null (a tuple is one cell holding its elements)
 	it := &Iter{framer: &framer{proto: 4, buf: body, header: &frameHeader{version: 0x84, op: opResult}}, numRows: 1,
 		meta: resultMetadata{columns: []ColumnInfo{{Keyspace: "k", Table: "t", Name: "c", TypeInfo: ti}}, colCount: 1, actualColCount: cells}}
 	switch vChoose("consumer", 3) {
